@@ -13,6 +13,7 @@ from .values import *  # noqa: F401,F403
 functions: dict = {}
 methods: dict = {}
 lazy: dict = {}
+constants: dict = {}
 TRUSTED_USED: set = set()
 
 
@@ -375,3 +376,78 @@ def _mk_belief_base(ex, args, kwargs, node):
 def _deadline(ex, args, kwargs, node):
     ref = ex.st.alloc({"kind": "obj", "cls": "Deadline", "fields": {}})
     return VRef(ref, TObj("Deadline", {}))
+
+
+# ---------------------------------------------------------------------------
+# TB-z3: z3.Solver / z3.Optimize as ghost state; check() result as an int code
+# ---------------------------------------------------------------------------
+UNSAT, SAT, UNKNOWN = 0, 1, 2
+for _q in ("z3.unsat", "z3.z3.unsat"):
+    constants[_q] = VInt(UNSAT)
+for _q in ("z3.sat", "z3.z3.sat"):
+    constants[_q] = VInt(SAT)
+for _q in ("z3.unknown", "z3.z3.unknown"):
+    constants[_q] = VInt(UNKNOWN)
+
+
+@fn("z3.Solver", "z3.z3.Solver", tb="TB-z3")
+def _z3solver(ex, args, kwargs, node):
+    ref = ex.st.alloc({"kind": "solver", "A": L.FULL, "pushed": [], "base": None, "timeout": False})
+    return VRef(ref, TSolverT)
+
+
+@fn("z3.Optimize", "z3.z3.Optimize", tb="TB-z3")
+def _z3opt(ex, args, kwargs, node):
+    ref = ex.st.alloc({"kind": "solver", "A": L.FULL, "pushed": [], "base": None, "timeout": False, "optimize": True})
+    return VRef(ref, TSolverT)
+
+
+@meth("Solver", "set", tb="TB-z3")
+def _z3set(ex, s, args, kwargs, node):
+    if "timeout" in kwargs:
+        ex.st.update(s.ref, timeout=True)
+    return VNone()
+
+
+@meth("Solver", "add_soft", tb="TB-z3")
+def _z3addsoft(ex, s, args, kwargs, node):
+    # soft constraints do not change the set of admissible worlds
+    _forms(ex, args[:1])
+    return VNone()
+
+
+@meth("Solver", "check", tb="TB-z3")
+def _z3check(ex, s, args, kwargs, node):
+    o = ex.st.obj(s.ref)
+    sat = L.nonempty(o["A"])
+    if o.get("timeout", True):
+        # with a timeout set the solver may give up: unknown is possible at every call (C14)
+        gaveup = ex.st.fresh_const("gaveup", L.Bool)
+        return VInt(z3.If(gaveup, UNKNOWN, z3.If(sat, SAT, UNSAT)))
+    return VInt(z3.If(sat, SAT, UNSAT))
+
+
+@meth("Solver.converter", "convert", tb="TB-solver")
+def _convert(ex, s, args, kwargs, node):
+    (f,) = _forms(ex, args)
+    r = ex.st.fresh_const("conv", L.Formula)
+    ex.st.assume(L.M(r) == L.M(f.t))
+    return VForm(r)
+
+
+# ---------------------------------------------------------------------------
+# time model (C14): every observation of the clock is nondeterministic
+# ---------------------------------------------------------------------------
+@meth("Deadline", "expired", tb="TB-time")
+def _expired(ex, d, args, kwargs, node):
+    return VBool(ex.st.fresh_const("expired", L.Bool))
+
+
+@meth("Deadline", "remaining_ms", tb="TB-time")
+def _remaining_ms(ex, d, args, kwargs, node):
+    return VInt(ex.st.fresh_const("remaining_ms", L.Int))
+
+
+@meth("Deadline", "remaining_seconds", tb="TB-time")
+def _remaining_s(ex, d, args, kwargs, node):
+    return VFloat()
